@@ -10,12 +10,14 @@ RULE = (
     "Hypothesis RuleBasedStateMachine over one Pickled object started from a natural pickle "
     "(generated value, protocols 0-5) or an assembled program: rules insert / p[i]=op / "
     "p[i:j]=ops / p[i]=equal-looking opcode of the same class / del p[i] / del p[i:j] / append / extend / pop / remove / reverse / += / the "
+    "a compound read-edit-read step / the "
     "injection helpers (insert_python_eval/exec in all flag combinations, append_python, "
     "insert_magic_int, insert_function_call_on_unpickled_object) interleaved with reads of one "
     "derived view (ast dump, has_import, has_call, has_non_setstate_call, imports text, "
-    "severity, dumps). Oracle: each read equals the same view of Pickled(list(p)) built fresh at "
+    "severity, dumps(), dump(file)), including an opcode larger than 64 KiB. The object under test and a never-edited sibling are both "
+    "constructed from one caller-owned opcode list. Oracle: each read (of either) equals the same view of Pickled(list(p)) built fresh at "
     "that moment (same value, or the same exception type when the edited program is invalid), "
-    "and dumps() == concatenation of the current opcodes' data. Non-trivial = a view was read, "
+    "and dumps() / dump(file) == concatenation of the current opcodes' data. Non-trivial = a view was read, "
     "then an edit happened, then the same view was read again; distinct = distinct histories."
 )
 ASSUMPTIONS = [
@@ -25,7 +27,7 @@ ASSUMPTIONS = [
     "model",
 ]
 
-VIEWS = ("astdump", "has_import", "has_call", "has_nss_call", "imports", "severity", "dumps")
+VIEWS = ("astdump", "has_import", "has_call", "has_nss_call", "imports", "severity", "dumps", "dump_file")
 # every opcode class without an argument (the machine draws from all of them)
 SIMPLE = ("MARK", "TUPLE", "REDUCE", "POP", "STOP", "EMPTY_LIST", "EMPTY_DICT", "APPEND", "MEMOIZE",
           "NONE", "DUP", "EMPTY_TUPLE", "TUPLE1", "BUILD", "POP_MARK", "STACK_GLOBAL", "NEWOBJ",
@@ -90,6 +92,12 @@ def view(p, which):
             return ("ok", check_safety(p).severity.name)
         if which == "dumps":
             return ("ok", p.dumps())
+        if which == "dump_file":
+            import io
+
+            buf = io.BytesIO()
+            p.dump(buf)
+            return ("ok", buf.getvalue())
     except RecursionError:
         return ("raised", "RecursionError")
     except Exception as e:  # noqa: BLE001
@@ -183,10 +191,10 @@ def compare(p, which):
     want = view(fresh, which)
     if got != want:
         return f"view {which!r} is {_s(got)} but a fresh Pickled over the same opcodes gives {_s(want)}"
-    if which == "dumps" and got[0] == "ok":
+    if which in ("dumps", "dump_file") and got[0] == "ok":
         cat = b"".join(op.data for op in p)
         if got[1] != cat:
-            return "dumps() is not the concatenation of the current opcodes' encodings"
+            return f"{which} is not the concatenation of the current opcodes' encodings"
     return None
 
 
@@ -199,20 +207,42 @@ def run_history(start_hex, history):
     """Replay without Hypothesis. Returns message or None."""
     from fickling.fickle import Pickled
 
-    p = Pickled.load(bytes.fromhex(start_hex))
+    p, sib = start_pair(bytes.fromhex(start_hex))
     for step in history:
         if step[0] == "read":
-            msg = compare(p, step[1])
+            msg = compare(p, step[1]) or compare_sibling(sib, step[1])
             if msg:
                 return msg
         elif step[0] == "check_all":
             for v in VIEWS:
-                msg = compare(p, v)
+                msg = compare(p, v) or compare_sibling(sib, v)
                 if msg:
                     return msg
+        elif step[0] == "edit_between_reads":
+            msg = compare(p, step[1]) or compare_sibling(sib, step[1])
+            if msg:
+                return msg
+            apply_step(p, _tup(step[2]))
+            msg = compare(p, step[1]) or compare_sibling(sib, step[1])
+            if msg:
+                return msg
         else:
             apply_step(p, step)
     return None
+
+
+def start_pair(data):
+    """the Pickled under test and a sibling, both constructed from one caller-owned opcode list
+    (the constructor's documented input is any iterable of opcodes); only the first is edited"""
+    from fickling.fickle import Pickled
+
+    ops = list(Pickled.load(data))
+    return Pickled(ops), Pickled(ops)
+
+
+def compare_sibling(sib, which):
+    msg = compare(sib, which)
+    return f"[sibling built from the same opcode list, never edited] {msg}" if msg else None
 
 
 def replay(case):
@@ -245,6 +275,13 @@ def _machine(res, holder):
         st.tuples(st.just("get"), st.integers(0, 3)),
         st.tuples(st.just("proto"), st.integers(0, 5)),
     )  # fmt: skip
+    # opcodes that change the program's structure wherever they land (every NoOp subclass among
+    # them: PROTO, FRAME-like STACK_GLOBAL), and one opcode larger than any I/O buffer
+    structural = st.one_of(
+        st.tuples(st.just("simple"), st.sampled_from(["STACK_GLOBAL", "REDUCE", "POP", "MARK", "TUPLE2", "BUILD"])),
+        st.tuples(st.just("proto"), st.integers(0, 5)),
+        st.tuples(st.just("const"), st.sampled_from(["os", "system", "y" * 70000])),
+    )
     idx = st.integers(0, 40)
     prof = asm.full_profile(vocab.ASM_GLOBS)
     starts = st.one_of(
@@ -270,10 +307,10 @@ def _machine(res, holder):
         @initialize(data=starts)
         def start_from(self, data):
             try:
-                self.p = Pickled.load(data)
+                self.p, self.sib = start_pair(data)
             except Exception:  # noqa: BLE001
                 data = b"N."
-                self.p = Pickled.load(data)
+                self.p, self.sib = start_pair(data)
             self.start = data.hex()
 
         def _edit(self, step):
@@ -369,7 +406,7 @@ def _machine(res, holder):
             if v in self.reads and self.reads[v] < self.edits:
                 self.nontrivial = True
             self.reads[v] = self.edits
-            msg = compare(self.p, v)
+            msg = compare(self.p, v) or compare_sibling(self.sib, v)
             if msg:
                 self._fail(msg)
 
@@ -377,9 +414,26 @@ def _machine(res, holder):
         def check_all(self):
             self.history.append(("check_all",))
             for v in VIEWS:
-                msg = compare(self.p, v)
+                msg = compare(self.p, v) or compare_sibling(self.sib, v)
                 if msg:
                     self._fail(msg)
+
+        @rule(v=st.sampled_from(VIEWS), kind=st.sampled_from(["insert", "setitem", "append"]), i=idx,
+              s=st.one_of(specs, structural))  # fmt: skip
+        def edit_between_reads(self, v, kind, i, s):
+            # read a view (so it is cached), make one edit, read the same view again
+            step = (kind, s) if kind == "append" else (kind, i, s)
+            self.history.append(("edit_between_reads", v, step))
+            self.nontrivial = True
+            self.reads[v] = self.edits + 1
+            msg = compare(self.p, v) or compare_sibling(self.sib, v)
+            if msg:
+                self._fail(msg)
+            self.edits += 1
+            apply_step(self.p, step)
+            msg = compare(self.p, v) or compare_sibling(self.sib, v)
+            if msg:
+                self._fail(msg)
 
         def teardown(self):
             if self.p is not None:
